@@ -1398,7 +1398,7 @@ class QvmCpu:
             length = length.value
 
         if length is None:
-            length = len(string) - start + 1
+            length = max(0, len(string) - start + 1)
 
         if length < 0:
             self.trap(TrapCode.INVALID_OPERAND_VALUE,
